@@ -157,8 +157,9 @@ def make_class(spec):
             from frappy.persistent import PersistentLimit
             attrs[p['name']] = PersistentLimit()      # a persistent limit of the parameter defined before
             continue
-        attrs[p['name']] = PersistentParam(f"persistent {p['name']}", specs.build(p['T']), default=p['default'],
-                                           persistent=p['persistent'], readonly=bool(p.get('readonly')))
+        kw = {} if p.get('nodefault') else {'default': p['default']}     # (nodefault: the default of the datatype applies)
+        attrs[p['name']] = PersistentParam(f"persistent {p['name']}", specs.build(p['T']), persistent=p['persistent'],
+                                           readonly=bool(p.get('readonly')), **kw)
         if p.get('write') and not p.get('readonly'):
             def wfunc(self, value, pname=p['name']):
                 if self.hw_refuses:
@@ -243,6 +244,12 @@ def module_case(draw):
                        'persistent': draw(st.sampled_from(['on', 'auto', 'auto'])), 'write': draw(st.booleans()),
                        # read-only for clients and without write method: only the driver changes it (encoder, counter ...)
                        'readonly': draw(st.integers(0, 3)) == 0})
+    for p in params:
+        if p['T']['k'] in ('double', 'int', 'bool', 'string') and draw(st.integers(0, 3)) == 0:
+            # declared without default: the parameter starts "not initialized" with the default of its datatype
+            d = specs.build(p['T']).default
+            if type(d) in (float, int, bool, str):
+                p['default'], p['nodefault'] = d, True
     for p in list(params):
         if p['T']['k'] in ('double', 'int') and not p['readonly'] and draw(st.integers(0, 2)) == 0:
             hi = rm.dlimits(p['T'])[1] if p['T']['k'] == 'double' else p['T']['max']
@@ -336,6 +343,9 @@ def _check_module(ctx, case, workdir):
         got = rm.canon(getattr(m3, p['name']))
         if got != final_values[p['name']]:
             ctx.finding(f'reload:stored-value-lost:{p["T"]["k"]}', case, f'{p["name"]}: {got!r} instead of {final_values[p["name"]]!r}')
+        elif m3.parameters[p['name']].readerror is not None and m.parameters[p['name']].readerror is None:
+            # restored, but still flagged as an error (an activating client gets an error instead of the value)
+            ctx.finding('reload:restored-value-still-in-error-state', case, f'{p["name"]} = {got!r}: {m3.parameters[p["name"]].readerror!r}')
         else:
             ctx.ok('reload-roundtrip')
     m2 = new_module(cls, spec, workdir, spec.get('cfg'))
